@@ -5,8 +5,73 @@ CONFIG = {
         "name": "store", "pkg": "./ledger/store/trackerdb/testsuite/", "run": "^TestVerifC47$",
         "files": ["ledger/store/trackerdb/testsuite/zz_verif_c47_test.go"],
         "util": [("ledger/store/trackerdb/testsuite", "testsuite")],
-        "env": {"quick": {"VERIF_C47_HIST": 40, "VERIF_C47_BATCH": 5, "VERIF_C47_QUERY": 30},
-                "thorough": {"VERIF_C47_HIST": 600, "VERIF_C47_BATCH": 6, "VERIF_C47_QUERY": 40}},
+        "env": {"quick": {"VERIF_C47_HIST": 60, "VERIF_C47_BATCH": 5, "VERIF_C47_QUERY": 30},
+                "thorough": {"VERIF_C47_HIST": 1500, "VERIF_C47_BATCH": 6, "VERIF_C47_QUERY": 40}},
         "timeout": {"quick": 600, "thorough": 3000},
+        "search_tier": "quick",
     }],
+    "rule": "each history opens a fresh SQLite (in memory) and a fresh Pebble store (temp dir under the run directory, removed afterwards) through "
+            "trackerdb.Store, runs RunMigrations, applies the same random protocol-respecting write batches to both (accounts, resources, app kv pairs "
+            "with prefix chains / 0x00 / 0xff tails / empty values, creatables, online-account rows over rounds incl. 254..257, 511, 65535/6, 2^32, 2^63-1, "
+            "OnlineAccountsDelete, tx tail with gaps and pruning, online round params, state proof contexts, totals) and after every batch issues random "
+            "reader queries of all 22 kinds with boundary-heavy arguments (prefix / cursor / limit / byte budget / exclusions, pre-filled result maps, offsets, "
+            "maxAccounts). One case = (history so far, query, SQLite observation, Pebble observation); spec_ok = the two observations are equal; corr = SQLite "
+            "equals the abstract store's answer and Pebble equals the transcribed repaired key-value code's answer. Non-trivial = non-empty history; "
+            "distinct = distinct case lines.",
+    "exhaustive": {"quick": False, "thorough": False},
+    "explanation": "theorems quantify over every protocol-respecting history (any length) and every reader argument; SQLite's agreement with the abstract store is tested, not proved",
+    "assumptions": [
+        "writers are driven as accountsNewRound / the trackers drive them (op_ok): insert only absent rows, update / delete only present rows, an account is deleted after its resources, "
+        "db round moves forward, tx tail / round params / state proof rounds are inserted once, InsertOnlineAccount's normalized balance and voteLastValid arguments agree with the data; "
+        "a write sequence that breaks this (e.g. InsertAccount twice) errors in SQLite (primary key) and silently overwrites in the key-value backend - outside the compared domain",
+        "creatable indices, rounds and counts are below 2^63 (database/sql rejects uint64 with the high bit; the key-value backend accepts them)",
+        "LookupKeysByPrefix is called with resultCount < maxKeyNum (accountUpdates returns before the DB call otherwise; SQLite then returns round 0)",
+        "msgpack encoding / decoding of the stored structs is lossless (values are abstracted to payload numbers; the harness flags any record that does not re-encode to what was written)",
+        "Pebble iterators / Get / Set / Delete / DeleteRange and SQLite behave as an ordered byte-string map / as the SQL statements read (modelled, compared on every run)",
+        "AccountsTotals(catchpointStaging=true) before any PutTotals(true) is not compared (sql.ErrNoRows vs trackerdb.ErrNotFound; catchpoint staging is unimplemented on the key-value backend)",
+    ],
+    "trusted_base": [
+        "modelled: generickv/schema.go key encodings, generickv readers / writers (accounts_reader.go, accounts_ext_reader.go, onlineaccounts_reader.go, accounts_writer.go, "
+        "accounts_ext_writer.go, onlineaccounts_writer.go, stateproof_*.go) as Gallina over an ordered byte-string map (coq/model/TrackerStore.v); SQL statements of "
+        "sqlitedriver/sql.go, accountsV2.go, spVerificationAccessor.go as comprehensions over the abstract store",
+        "not modelled: catchpoint readers / writers / iterators (unimplemented on the key-value backend: recorded finding), LoadAllFullAccounts, AccountsHashRound, batch / snapshot / transaction scopes (the harness uses the store-level handles), dualdriver",
+    ],
 }
+
+
+def custom(ctx):
+    """Safety net: the driver inspects only the first 20 verdicts of each code; scan every verdict of
+    the run for finding signatures that are NOT listed in KNOWN_FINDINGS.txt (the defects repaired by
+    fixes/C47a-c carry such names) so that none can hide behind listed ones."""
+    import os, re, glob, subprocess
+    runner = os.path.join(ctx.BUILD, "ocaml", ctx.pid, "runner")
+    if not os.path.exists(runner):
+        return
+    listed = set()
+    kf = os.path.join(ctx.VERIF, "KNOWN_FINDINGS.txt")
+    if os.path.exists(kf):
+        for l in open(kf):
+            m = re.match(r"^finding:\s+property=(\S+)\s+name=(\S+)", l.strip())
+            if m and m.group(1) == ctx.pid:
+                listed.add(m.group(2))
+    counts, example = {}, {}
+    for cf in sorted(glob.glob(os.path.join(ctx.work, "h_*", "cases*.txt"))):
+        with open(cf) as fin:
+            p = subprocess.run([runner], stdin=fin, stdout=subprocess.PIPE, text=True)
+        cases = [l.rstrip("\n") for l in open(cf) if l.strip()]
+        for c, v in zip(cases, p.stdout.splitlines()):
+            m = re.match(r"^\(5\s+(\S+?)[\s)]", v)
+            if m:
+                counts[m.group(1)] = counts.get(m.group(1), 0) + 1
+                example.setdefault(m.group(1), c)
+    ctx.extra_coverage["finding_signature_counts"] = counts
+    for name in sorted(counts):
+        if name not in listed:
+            rdir = os.path.join(ctx.VERIF, "replays", ctx.pid)
+            os.makedirs(rdir, exist_ok=True)
+            rp = os.path.join(rdir, "unlisted_%s_seed%d.txt" % (name, ctx.seed))
+            with open(rp, "w") as f:
+                f.write("# property %s: %d case(s) with the unlisted finding signature %s\n" % (ctx.pid, counts[name], name))
+                f.write("# replay: bin/check %s --replay %s\n" % (ctx.pid, rp))
+                f.write(example[name] + "\n")
+            ctx.problems.append(("finding", "unlisted finding signature %s on %d case(s); replay %s" % (name, counts[name], rp)))
